@@ -63,6 +63,11 @@ def scenarios(n, b, w, keys=True):
         out.append(cs.make(entry, nn, bb, ww))
         if keys and entry in ('pf1', 'pft', 'parmap') and nn >= 1:
             out.append(cs.make(entry, nn, bb, ww, key=True))
+        # two iterators over one dataset object, consumed in lock step
+        if entry in ('pf1', 'pft', 'parmap', 'chain') and nn >= 2 and bb == ww:
+            out.append(cs.make(entry, nn, bb, ww, dual=True))
+            if keys and entry in ('pft', 'parmap'):
+                out.append(cs.make(entry, nn, bb, ww, dual=True, key=True))
     return out
 
 
@@ -74,6 +79,8 @@ def run_shard(spec, res):
 
         def on_run(sc, r):
             cs.note(res, sc, r)
+            if sc.get('dual'):
+                res.count('executions_with_two_iterators_over_one_object')
             ok = conc.judge_transparent(sc, r, res, ld)
             if r['deadlock']:
                 res.count('deadlocks_left_to_C05')
